@@ -33,6 +33,7 @@ mod c10;
 mod c14;
 mod c18;
 mod c19;
+mod srcscan;
 mod c16;
 mod c20;
 mod c20_more;
